@@ -95,7 +95,11 @@ ImplGenericCA(A, B, x) ==
     IN IF B2.k \in TypedFamily
        THEN LET ga == ImplGenericArgsFor(B2, A.c)
                 myargs == ImplOwnArgs(A)
-            IN IF ~ga.found \/ Len(ga.args) # Len(myargs) THEN ImplTypedCA(A, B, x)
+            IN IF ~ga.found \/ Len(ga.args) # Len(myargs)
+               THEN /\ ImplTypedCA(A, B, x)
+                    \* (structural check with self_val = Iterable[T]: the __iter__ found on the enum's metaclass returns
+                    \*  Iterator[_EnumMemberT] with the type variable unsolved, which is matched like object)
+                    /\ (A.k = "generic" /\ IsProtocol(A.c) /\ B2.c = "Color") => ImplCA(A.args[1], Typed("object"), x)
                ELSE IF Len(ga.args) = 0 THEN FALSE
                ELSE \A i \in 1..Len(ga.args) : ImplCA(myargs[i], ga.args[i], x)
        ELSE ImplTypedCA(A, B, x)
